@@ -7,7 +7,6 @@ package storage
 // state machine is asynchronous and needs the FSM-apply gate.
 
 import (
-	"strings"
 	"fmt"
 	"os"
 	"testing"
@@ -203,7 +202,11 @@ func TestVerifC08(t *testing.T) {
 					continue
 				}
 				progs := []txc.Program{tmpl[i], tmpl[j]}
-				for _, init := range c08Initials() {
+				inits := c08Initials()
+				if txc.RepeatedListing(tmpl[i]) || txc.RepeatedListing(tmpl[j]) {
+					inits = append(inits, txc.RichInitial())
+				}
+				for _, init := range inits {
 					txc.Merges([]int{len(progs[0].Steps), len(progs[1].Steps)}, func(s []int) {
 						runOne(st, txc.Replay{Stack: st.name, Initial: init, Programs: progs, Schedule: append([]int{}, s...)})
 					})
@@ -222,7 +225,7 @@ func TestVerifC08(t *testing.T) {
 		}
 		var plains, txs []txc.Program
 		for _, p := range tmpl {
-			if !vout.Thorough() && strings.Count(p.Name, "l") >= 2 && strings.Contains(p.Name, "lp(d/,,") && len(p.Steps) == 5 {
+			if !vout.Thorough() && txc.RepeatedListing(p) && len(p.Steps) == 5 {
 				// the repeated-listing programs take part in all pairs; in triples only in the thorough tier
 				continue
 			}
@@ -241,6 +244,9 @@ func TestVerifC08(t *testing.T) {
 					}
 					progs := []txc.Program{txs[i], txs[j], pl}
 					init := c08Initials()[0]
+					if txc.RepeatedListing(txs[i]) || txc.RepeatedListing(txs[j]) {
+						init = txc.RichInitial()
+					}
 					txc.Merges([]int{len(progs[0].Steps), len(progs[1].Steps), len(pl.Steps)}, func(s []int) {
 						runOne(st, txc.Replay{Stack: st.name, Initial: init, Programs: progs, Schedule: append([]int{}, s...)})
 					})
